@@ -259,22 +259,52 @@ class Lic:
                 return False
             if k == 'IfStmt' and child != an.get('cond'):
                 in_then = an.get('then', -1) >= 0 and (child == an['then'])
-                pure = True
-                has_and = False
-                for j in fn.walk(an['cond']):
-                    jn = fn.nodes[j]
-                    if jn['k'] == 'BinaryOperator' and jn.get('op') == '&':
-                        has_and = True
-                    if jn['k'] == 'DeclRefExpr' and 'cv' not in jn and jn.get('rk') in ('param', 'local') and \
-                            'unsigned' not in jn.get('t', ''):
-                        pure = False
-                    if jn['k'] in ('MemberExpr', 'CallExpr', 'CXXMemberCallExpr') and 'cv' not in jn:
-                        pure = False
+                pure, has_and = self._pure_mask_cond(an['cond'], 0)
                 if not (pure and has_and and in_then):
                     return False
                 found = True
             child = a
         return found
+
+    def _pure_mask_cond(self, cond, depth):
+        """(pure, has_and): the condition mentions only mask words (unsigned), constants, and bool locals that are
+        themselves defined once by such a condition (`const bool want = (outmask & X) != 0;`)."""
+        fn = self.fn
+        pure, has_and = True, False
+        for j in fn.walk(cond):
+            jn = fn.nodes[j]
+            if jn['k'] == 'BinaryOperator' and jn.get('op') == '&':
+                has_and = True
+            if jn['k'] == 'DeclRefExpr' and 'cv' not in jn and jn.get('rk') in ('param', 'local') and \
+                    'unsigned' not in jn.get('t', ''):
+                ok = False
+                if jn.get('rk') == 'local' and jn.get('t', '').replace('const ', '') == 'bool' and depth < 3:
+                    d = self._single_def(jn['d'])
+                    if d is not None:
+                        p2, a2 = self._pure_mask_cond(d, depth + 1)
+                        if p2 and a2:
+                            ok = True
+                            has_and = True
+                if not ok:
+                    pure = False
+            if jn['k'] in ('MemberExpr', 'CallExpr', 'CXXMemberCallExpr') and 'cv' not in jn:
+                pure = False
+        return pure, has_and
+
+    def _single_def(self, d):
+        """initialiser node of local d if that is its only definition."""
+        fn = self.fn
+        init = None
+        for i, n in fn.all_nodes():
+            if n['k'] == 'DeclStmt':
+                for dd in n['decls']:
+                    if dd['d'] == d and dd.get('init', -1) >= 0:
+                        init = dd['init']
+            elif n['k'] in ('BinaryOperator', 'CompoundAssignOperator') and n.get('op') in ASSIGN_OPS:
+                ln = fn.nodes[fn.strip(n['ch'][0])]
+                if ln['k'] == 'DeclRefExpr' and ln.get('d') == d:
+                    return None
+        return init
 
     def _zero_then_assigned_any(self):
         fn = self.fn
